@@ -14,11 +14,12 @@ CLAIMED = {
          "Lean kernel + propext/Classical.choice/Quot.sound; harness and driver; std::stoi/lexical_cast literal syntax and boost::char_separator modelled.",
          "6/C18"),
  "C13": ("Lean 4 proof (bin index always in range, code wrap = Euclidean residue, nearest-centre bounds, weight conservation by induction over "
-         "the stream, normalisation, legacy auto range) + exact-rational correspondence with the real classes under ASan/UBSan",
+         "the stream, normalisation, legacy auto range; bridge theorems: the model's formulas are the expressions regenerated from histogramnew.cc / histogram.cc) "
+         "+ exact-rational correspondence with the real classes under ASan/UBSan",
          "Theorems for every range, bin count, value and weight stream about an exact-arithmetic model of HistogramNew::Process/Normalize and "
          "the legacy automatic range; tied to the working tree by running the real classes (release-like build under ASan, so an out-of-range "
          "write aborts) on dyadic streams compared bin by bin exactly, plus generic doubles away from bin edges.",
-         "Lean kernel + three standard axioms; harness/driver; IEEE rounding not modelled (exact stream avoids it); the cast guard |bin|<9e18 is modelled.",
+         "Lean kernel + three standard axioms; translator tools/translate/tr_c13.py (cexpr); harness/driver; IEEE rounding not modelled (exact stream avoids it); the cast guard |bin|<9e18 is modelled.",
          "6/C13"),
  "C20": ("Lean 4 proof over tables regenerated from the source on every run (translator): generic there-and-back/transitivity algebra + "
          "`decide +kernel` over the whole finite table for non-zero entries, derived-unit quotients, CODATA/SI agreement, cross-place agreement, element data",
